@@ -22,6 +22,8 @@ type backend struct {
 	panicPm     int
 	closeFaults bool
 	panics      int // panics injected so far
+	fullReads   bool // ReadAt always fills the buffer (C13 boundary runs)
+	manyDirents int  // Readdir returns about this many entries (C13 boundary runs)
 
 	calls  []string // indexed call tokens of the current request
 	multis []string // unindexed tokens (Close, Renamed) of the current request
@@ -375,11 +377,13 @@ func (f *sfile) ReadAt(p []byte, offset int64) (int, error) {
 	}
 	b.mu.Lock()
 	n := len(p)
-	switch b.r.intn(4) {
-	case 0:
-		n = b.r.intn(len(p) + 1)
-	case 1:
-		n = 0
+	if !b.fullReads {
+		switch b.r.intn(4) {
+		case 0:
+			n = b.r.intn(len(p) + 1)
+		case 1:
+			n = 0
+		}
 	}
 	data := b.r.bytesN(n)
 	eof := b.r.chance(1, 6)
@@ -538,7 +542,11 @@ func (f *sfile) Readdir(offset uint64, count uint32) (p9.Dirents, error) {
 	b.mu.Lock()
 	var ents p9.Dirents
 	var rows [][]string
-	for i := b.r.intn(7); i > 0; i-- {
+	nd := b.r.intn(7)
+	if b.manyDirents > 0 {
+		nd = b.manyDirents/2 + b.r.intn(b.manyDirents)
+	}
+	for i := nd; i > 0; i-- {
 		d := p9.Dirent{QID: b.randQID(), Offset: b.r.bits(64), Type: p9.QIDType(b.r.bits(8)), Name: string(b.r.bytesN(1 + b.r.intn(30)))}
 		ents = append(ents, d)
 		rows = append(rows, []string{fmt.Sprint(uint8(d.QID.Type)), fmt.Sprint(d.QID.Version), fmt.Sprint(d.QID.Path), fmt.Sprint(d.Offset), fmt.Sprint(uint8(d.Type)), hx([]byte(d.Name))})
